@@ -1026,6 +1026,8 @@ class CachedInput:
                     break
                 self.__buffer = self.__file.read(n_size)
                 self.__todo -= len(self.__buffer)
+                if not self.__buffer and self.__timeout is None:
+                    break           # end of stream, nobody to wait for
 
         # no end-of-line found
         return line
